@@ -284,6 +284,31 @@ func runR2e(c *Ctx, s *r2State) {
 			})
 		}
 	}
+	// Wait hands its predicate the section's own broadcast and getWaitCh (a recorder that "coalesces"
+	// broadcasts loses the ones made by a predicate that returns true or an error)
+	if wf := c.Prog.LookupFunc("broadcast", "Broadcast", "Wait"); wf != nil {
+		if wd := c.Prog.Decl(wf); wd != nil {
+			var cbParam *types.Var
+			for _, pvv := range paramVars(wd) {
+				if pvv != nil {
+					if _, ok := pvv.Type().Underlying().(*types.Signature); ok {
+						cbParam = pvv
+					}
+				}
+			}
+			c.Walk("R2e", &core.Config{Follow: helperFollow("broadcast")}, core.Entry{Decl: wd}, func(p *core.Path) {
+				for _, ev := range p.Events {
+					if ev.Kind != core.KCall || ev.Callee != nil || ev.Builtin != "" || cbParam == nil || iv(ev.Call.Fun, ev.Frame) != cbParam {
+						continue
+					}
+					ok := len(ev.ArgVals) == 2 && ev.ArgVals[0].Kind == core.VBroadcast && ev.ArgVals[1].Kind == core.VGetWaitCh
+					s.note("R2e", core.FuncName(wd.Obj)+"/predicate-gets-section-functions", ev.Pos, !ok,
+						"Wait hands its predicate the broadcast and getWaitCh of the critical section it runs in",
+						"Wait calls its predicate with something other than the section's own broadcast/getWaitCh: a broadcast the predicate issues can be lost, or its wait channel is not the one the next broadcast closes", p)
+				}
+			})
+		}
+	}
 	// broadcast: close and forget
 	const chT = "broadcast.Broadcast.ch"
 	bd := c.Prog.Decl(bm)
@@ -368,6 +393,7 @@ func runR17(c *Ctx) {
 		}
 	}
 	s := &r2State{c: c, agg: map[string]*Obligation{}}
+	s.cmpCanceled = comparedWithCanceled(c)
 	for _, d := range c.declsInScope() {
 		pv := paramVars(d)
 		var ctxP *types.Var
@@ -391,6 +417,79 @@ func runR17(c *Ctx) {
 	for _, k := range s.order {
 		c.Add(s.agg[k])
 	}
+}
+
+// comparedWithCanceled lists the library functions whose returned error some library caller compares with
+// the literal context.Canceled (v == context.Canceled / v != context.Canceled where v was assigned from
+// a call of the function; a call through an interface counts for every same-named method of the library).
+func comparedWithCanceled(c *Ctx) map[*types.Func]string {
+	out := map[*types.Func]string{}
+	byName := map[string][]*types.Func{}
+	for _, d := range c.Prog.Funcs {
+		if core.RecvNamed(d.Obj) != nil {
+			byName[d.Obj.Name()] = append(byName[d.Obj.Name()], d.Obj)
+		}
+	}
+	for _, d := range c.Prog.Funcs {
+		if d.Decl.Body == nil {
+			continue
+		}
+		info := d.Pkg.TypesInfo
+		// locals assigned from calls
+		from := map[*types.Var]*ast.CallExpr{}
+		ast.Inspect(d.Decl.Body, func(n ast.Node) bool {
+			as, ok := n.(*ast.AssignStmt)
+			if !ok || len(as.Rhs) != 1 {
+				return true
+			}
+			call, ok := unparen(as.Rhs[0]).(*ast.CallExpr)
+			if !ok {
+				return true
+			}
+			for _, l := range as.Lhs {
+				if id, ok := l.(*ast.Ident); ok {
+					if v, _ := info.ObjectOf(id).(*types.Var); v != nil {
+						from[v] = call
+					}
+				}
+			}
+			return true
+		})
+		ast.Inspect(d.Decl.Body, func(n ast.Node) bool {
+			be, ok := n.(*ast.BinaryExpr)
+			if !ok || be.Op != token.EQL && be.Op != token.NEQ {
+				return true
+			}
+			for _, pr := range [][2]ast.Expr{{be.X, be.Y}, {be.Y, be.X}} {
+				if core.ExprString(unparen(pr[1])) != "context.Canceled" {
+					continue
+				}
+				id, ok := unparen(pr[0]).(*ast.Ident)
+				if !ok {
+					continue
+				}
+				v, _ := info.ObjectOf(id).(*types.Var)
+				call := from[v]
+				if call == nil {
+					continue
+				}
+				f, _ := typeutil.Callee(info, call).(*types.Func)
+				if f == nil {
+					continue
+				}
+				where := core.FuncName(d.Obj)
+				if rv := f.Type().(*types.Signature).Recv(); rv != nil && types.IsInterface(rv.Type()) {
+					for _, m := range byName[f.Name()] {
+						out[m.Origin()] = where
+					}
+				} else {
+					out[f.Origin()] = where
+				}
+			}
+			return true
+		})
+	}
+	return out
 }
 
 func isCtxDone(e ast.Expr, fr *core.Frame, ctxs map[*types.Var]bool) bool {
@@ -659,6 +758,18 @@ func (s *r2State) interruptPath(d *core.FuncDecl, ctxP *types.Var, chans []*type
 					if call, isCall := unparen(last).(*ast.CallExpr); isCall {
 						if f, _ := typeutil.Callee(ev.Frame.Info(), call).(*types.Func); f != nil && f.Pkg() == d.Obj.Pkg() {
 							okSentinel = true
+						}
+					}
+					if where, cmp := s.cmpCanceled[d.Obj.Origin()]; cmp && ev.Frame.Depth == 0 {
+						if call, isCall := unparen(last).(*ast.CallExpr); isCall && len(call.Args) == 0 {
+							if sel, isSel := unparen(call.Fun).(*ast.SelectorExpr); isSel && sel.Sel.Name == "Err" {
+								s.note("R17", name+"/ctx-arm-returns-canceled-literal", ev.Pos, true,
+									"a waiter whose error library callers compare with context.Canceled returns that literal from its ctx.Done() arm",
+									"the ctx.Done() arm returns "+lastS+", which is context.DeadlineExceeded for an expired deadline, but "+where+" recognises a cancelled wait by comparing with context.Canceled", p)
+							}
+						} else if lastS == "context.Canceled" {
+							s.note("R17", name+"/ctx-arm-returns-canceled-literal", ev.Pos, false,
+								"a waiter whose error library callers compare with context.Canceled returns that literal from its ctx.Done() arm", "", p)
 						}
 					}
 					if !isNilExpr(last, ev.Frame) {
